@@ -139,6 +139,10 @@ func c05Generate(c *mon.Ctx) {
 			}
 			c.Structured(func() any { return &c05Case{B: same, Rel: "P", Move: &mv} })
 			c.Structured(func() any { return &c05Case{B: neg, Rel: "-P", Move: &mv} })
+
+			// and with an unrelated finite point: a degenerate (0:0:0) left behind by a mutator "equals" everything
+			un := mon.MkElemCase(gen.PV{P: gen.Fresh(hr).P, Tag: "unrelated"}, gen.DrawRepr(hr, false))
+			c.Structured(func() any { return &c05Case{B: un, Rel: "unrelated", Move: &mv} })
 		}
 	}
 
